@@ -119,3 +119,11 @@ func VerifC13ExamineWire(w VerifC13Wire) (statusCode int, ok bool, msgs []string
 	statusCode, ok = examineWireDetails(ctx, p)
 	return statusCode, ok, p.take()
 }
+
+// VerifC13DebugData is examineConnectErrorDetailDebugData (the protojson comparison of a
+// detail's "debug" member with its "value"), which the Lean model takes as an oracle.
+func VerifC13DebugData(i int, msgName string, data []byte, debugJSON []byte) []string {
+	p := &verifC13Printer{}
+	examineConnectErrorDetailDebugData(i, msgName, data, debugJSON, p)
+	return p.take()
+}
